@@ -247,7 +247,8 @@ def getModule : Nat → St → Name → St × Res
       if st.inited.contains m then (st, .ok m)
       else if st.stack.contains m then (st, .raised "ConfigError")
       else
-        match initBody (getModule fuel) (cfgOf st m) { st with stack := m :: st.stack } with
+        -- the module object: its configuration, under its own name (`cls(modulename, …)`)
+        match initBody (getModule fuel) { cfgOf st m with name := m } { st with stack := m :: st.stack } with
         | (st, exc) => (finishInit st m exc, .ok m)
     | (st, r) => (st, r)
 
